@@ -890,3 +890,30 @@ pub fn record<P: Property>(scenario: &Path, out: &Path) -> i32 {
         }
     }
 }
+
+/// Generic list shrinker: candidates with chunks (halves, quarters, ...) and single elements removed.
+pub fn shrink_list<T: Clone>(ops: &[T]) -> Vec<Vec<T>> {
+    let n = ops.len();
+    let mut out = Vec::new();
+    if n == 0 {
+        return out;
+    }
+    let mut chunk = n / 2;
+    while chunk >= 2 {
+        let mut start = 0;
+        while start < n {
+            let end = (start + chunk).min(n);
+            let mut v = ops[..start].to_vec();
+            v.extend_from_slice(&ops[end..]);
+            out.push(v);
+            start += chunk;
+        }
+        chunk /= 2;
+    }
+    for i in (0..n).rev() {
+        let mut v = ops.to_vec();
+        v.remove(i);
+        out.push(v);
+    }
+    out
+}
